@@ -259,6 +259,10 @@ Theorem C17_coc_output_loop_matches_source : coc_output_loop_shape = [3; 0; 1; 1
 Proof. vm_compute. reflexivity. Qed.
 Print Assumptions C17_coc_output_loop_matches_source.
 
+Theorem C17_rfcomm_pn_validation_matches_source : rfcomm_pn_validation = [23; 32767; 1; 2].
+Proof. vm_compute. reflexivity. Qed.
+Print Assumptions C17_rfcomm_pn_validation_matches_source.
+
 Theorem C17_credit_based_validation_matches_source : credit_based_validation = [23; 23; 1; 1; 1; 1].
 Proof. vm_compute. reflexivity. Qed.
 Print Assumptions C17_credit_based_validation_matches_source.
